@@ -133,6 +133,13 @@ pub enum CEvent {
     /// a command that aborts itself: task B: request -> event; task A: request, then the
     /// command's own AbortHandle ("first to finish wins"), no output
     ReqA(Token),
+    /// request.then_stream(..).then_send(..): the stream is a finite local one made from the
+    /// answer (no further shell traffic)
+    ReqT(Token),
+    /// request.then_stream(..) consumed by hand inside Command::new
+    ReqU(Token),
+    /// request.then_request(..).then_stream(..).then_send(..)
+    ReqV(Token),
     /// nothing: one further core call
     Noop,
     Sub(Token),
@@ -231,6 +238,39 @@ where
             });
             cmd
         }
+        CEvent::ReqT(tok) => Command::request_from_shell(COp::Ask(Token::new()))
+            .then_stream(|out: COut| {
+                crux_core::command::StreamBuilder::new(move |_ctx| futures::stream::iter(vec![out]))
+            })
+            .then_send(move |o| {
+                let _held = &tok;
+                CEvent::Got(o, Token::new())
+            }),
+        CEvent::ReqU(tok) => {
+            let builder = Command::request_from_shell(COp::Ask(Token::new())).then_stream(
+                |out: COut| {
+                    crux_core::command::StreamBuilder::new(move |_ctx| {
+                        futures::stream::iter(vec![out])
+                    })
+                },
+            );
+            Command::new(|ctx| async move {
+                let _held = tok;
+                let mut stream = std::pin::pin!(builder.into_stream(ctx.clone()));
+                while let Some(o) = futures::StreamExt::next(&mut stream).await {
+                    ctx.send_event(CEvent::Got(o, Token::new()));
+                }
+            })
+        }
+        CEvent::ReqV(tok) => Command::request_from_shell(COp::Ask(Token::new()))
+            .then_request(|_first: COut| Command::request_from_shell(COp::Ask(Token::new())))
+            .then_stream(|out: COut| {
+                crux_core::command::StreamBuilder::new(move |_ctx| futures::stream::iter(vec![out]))
+            })
+            .then_send(move |o| {
+                let _held = &tok;
+                CEvent::Got(o, Token::new())
+            }),
         CEvent::Noop => Command::done(),
         CEvent::Joined(_tok) => {
             sat_inc(&mut model.got);
